@@ -171,7 +171,16 @@ def gen_dns(rng, fault=None):
         t, c = 1, 1
         if fault == 'notina' and (i == 0 or rng.chance(1, 2)):
             t, c = rng.choice([(16, 1), (1, 3), (28, 1), (255, 255), (0, 0), (1, 0), (257, 1)])
-        qs += dns_name(rng) + struct.pack('>HH', t, c)
+        nm = dns_name(rng)
+        if fault == 'labels' and len(nm) > 2:
+            # a label length byte that lies by a little (overshoots / undershoots the next label or the root)
+            pos, k = 0, []
+            while nm[pos] != 0:
+                k.append(pos)
+                pos += 1 + nm[pos]
+            j = rng.choice(k)
+            nm = nm[:j] + bytes([max(1, min(63, nm[j] + rng.choice([1, 1, 2, -1, 3, 62])))]) + nm[j + 1:]
+        qs += nm + struct.pack('>HH', t, c)
     rrs = b''
     for _ in range(an):
         rd = rng.bytes(rng.choice([0, 4, 16]))
@@ -243,6 +252,9 @@ def gen_smb1(rng, fault=None):
             ds.append(rng.choice(SMB1_DIALECTS))
         if rng.chance(1, 4):
             ds.append(ds[0])
+        if rng.chance(1, 3):
+            # a dialect offered twice, somewhere before the end (duplicates in front of the selected one)
+            ds.insert(rng.below(len(ds)), rng.choice(ds))
         if fault == 'nodialect':
             ds = [d for d in ds if d not in (b'NT LM 0.12', b'SMB 2.002', b'SMB 2.???')] or [b'Samba']
         blob = b''.join(b'\x02' + d + b'\0' for d in ds)
@@ -307,7 +319,7 @@ APP_GENS = {
     'http': (gen_http, [None, None, None, None, 'verb', 'nosp', 'version', 'nocolon', 'unterminated', 'lower', 'twosp', 'folded']),
     'ssh': (gen_ssh, [None, None, None, 'unterminated', 'version', 'magic']),
     'stun': (gen_stun, [None, None, None, None, 'class', 'method', 'lying', 'short', 'family', 'unpadded']),
-    'dns': (gen_dns, [None, None, None, 'qr', 'sections', 'notina', 'truncated']),
+    'dns': (gen_dns, [None, None, None, 'qr', 'sections', 'notina', 'truncated', 'labels']),
     'smb1': (gen_smb1, [None, None, None, 'replyflag', 'command', 'nodialect', 'bytecount', 'seclen', 'truncated']),
     'smb2': (gen_smb2, [None, None, None, 'replyflag', 'command', 'nodialect', 'count', 'seclen', 'truncated']),
 }
@@ -526,9 +538,21 @@ def gen_frame(rng, w):
     l4 = gen_l4(rng, w, v6, proto)
     src = rng.choice([None, None, None, None, w.bad6 if v6 else w.bad4])
     dst = rng.choice([None, None, None, None, w.other6 if v6 else w.other4, w.my6b if v6 else w.my4b])
+    group = None
+    if rng.chance(1, 12):
+        # group / broadcast destinations: never a handled address, whatever the self-IP list
+        if v6:
+            group = rng.choice([bytes.fromhex('ff020000000000000000000000000001'),
+                                bytes.fromhex('ff0200000000000000000001ff') + w.my6[13:16],
+                                bytes.fromhex('ff020000000000000000000000000002')])
+        else:
+            group = rng.choice([bytes([224, 0, 0, 1]), bytes([255, 255, 255, 255]), w.my4[:3] + b'\xff'])
+        dst = group
     if src is not None:
         tags.append('src-denied')
-    if dst is not None:
+    if group is not None:
+        tags.append('dst-group')
+    elif dst is not None:
         tags.append('dst-foreign' if dst in (w.other4, w.other6) else 'dst-second-self')
     if v6:
         plen = None
